@@ -1502,6 +1502,12 @@ class Parallel(Logger):
                 try:
                     islice = list(itertools.islice(iterator, big_batch_size))
                 except Exception as e:
+                    if self._aborting:
+                        # The call was aborted (failure, closed generator)
+                        # while this thread was inside the input iterator:
+                        # nobody is left to raise the error to, and a tracker
+                        # registered now would be found by the next call.
+                        return False
                     # Handle the fact that the generator of task raised an
                     # exception. As this part of the code can be executed in
                     # a thread internal to the backend, register a task with
